@@ -8,7 +8,7 @@ from vlib.gen import make_r_fmt, make_r_sub, make_r_dyn, r_fold, r_dynw
 
 QB = "src/backend/query_builder.rs"
 P = ["C08"]
-OPAQUE = ["OnConflictTarget", "OnConflictAction", "ColumnRef", "SelectDistinct", "TableRef", "JoinExpr", "ConditionHolder", "SimpleExpr", "LockClause", "DynIden",
+OPAQUE = ["OnConflictTarget", "ColumnRef", "SelectDistinct", "TableRef", "JoinType", "JoinOn", "ConditionHolder", "SimpleExpr", "DynIden",
           "WindowStatement", "Value", "IndexHint", "TableSample"]
 r_fmt = make_r_fmt(wmap=lambda w: w)
 
@@ -114,6 +114,9 @@ def list_fns(name, ty, mk, kind):
         item = "push(Ev::UpdColumn(%s.0)).push(lit(\" = \")).push(Ev::Expr(*%s.1))"
         body = "if xs.len() == 0 { Seq::<Ev>::empty() } else if xs.len() == 1 { Seq::<Ev>::empty().%s } else { %s(xs.drop_last()).push(lit(\", \")).%s }" % (item.replace("%s", "xs[0]"), name, item.replace("%s", "xs.last()"))
         step = "(if i == 0 { Seq::<Ev>::empty().%s } else { %s(xs.subrange(0, i)).push(lit(\", \")).%s })" % (item.replace("%s", "xs[0]"), name, item.replace("%s", "xs[i]"))
+    elif kind == "multi":
+        body = "if xs.len() == 0 { Seq::<Ev>::empty() } else if xs.len() == 1 { %s } else { %s(xs.drop_last()).push(lit(\", \")) + %s }" % (mk % "xs[0]", name, mk % "xs.last()")
+        step = "(if i == 0 { %s } else { %s(xs.subrange(0, i)).push(lit(\", \")) + %s })" % (mk % "xs[0]", name, mk % "xs[i]")
     elif kind == "rows":
         row = "(seq![lit(\"(\")] + l_exprs(%s@) + seq![lit(\")\")])"
         body = "if xs.len() == 0 { Seq::<Ev>::empty() } else if xs.len() == 1 { %s } else { %s(xs.drop_last()).push(lit(\", \")) + %s }" % (row % "xs[0]", name, row % "xs.last()")
@@ -143,7 +146,8 @@ pub proof fn lemma_%(n)s_empty(xs: Seq<%(t)s>)
 
 LISTS = [("l_selexprs", "SelectExpr", "Ev::SelExpr(%s)", "sep"), ("l_trefs", "TableRef", "Ev::TRef(%s)", "sep"), ("l_exprs", "SimpleExpr", "Ev::Expr(%s)", "sep"),
          ("l_orders", "OrderExpr", "Ev::Order(%s)", "sep"), ("l_joins", "JoinExpr", "Ev::Join(%s)", "pre"), ("l_unions", "(UnionType, SelectStatement)", "Ev::Union(%s.0, %s.1)", "each"),
-         ("l_updvalues", "(DynIden, Box<SimpleExpr>)", "", "upd"), ("l_idens", "DynIden", "Ev::Iden(%s)", "sep"), ("l_colrefs", "ColumnRef", "Ev::ColRef(%s)", "sep"), ("l_rows", "Vec<SimpleExpr>", "", "rows")]
+         ("l_updvalues", "(DynIden, Box<SimpleExpr>)", "", "upd"), ("l_idens", "DynIden", "Ev::Iden(%s)", "sep"), ("l_colrefs", "ColumnRef", "Ev::ColRef(%s)", "sep"),
+         ("l_updstrats", "OnConflictUpdate", "upd_item(%s)", "multi"), ("l_pkassign", "DynIden", "seq![Ev::Iden(%s), lit(\" = \"), Ev::Iden(%s)]", "multi"), ("l_rows", "Vec<SimpleExpr>", "", "rows")]
 
 
 def parts_spec(u, prefix, ty, parts):
@@ -190,12 +194,19 @@ def build(u):
     u.emit("use vstd::prelude::*;\nverus! {\n")
     for n in OPAQUE:
         u.emit("#[verifier::external_body]\npub struct %s { _opaque: u8 }\n" % n, kind="spec", key="R-opaque:" + n, props=P)
-    u.emit("#[verifier::external_body]\n#[derive(Clone, Copy)]\npub struct UnionType { _opaque: u8 }\n", kind="spec", key="R-opaque:UnionType", props=P)
+    u.type_item("src/query/select.rs", "enum", "UnionType", props=P, keep_derive=("Clone", "Copy"))
+    u.type_item("src/query/select.rs", "enum", "LockType", props=P, keep_derive=("Clone", "Copy"))
+    u.type_item("src/query/select.rs", "enum", "LockBehavior", props=P, keep_derive=("Clone", "Copy"))
+    u.type_item("src/query/select.rs", "struct", "LockClause", props=P, rules=[make_r_sub("R-vis", r"pub\(crate\) ", "pub ", min_count=0)])
+    u.type_item("src/query/select.rs", "struct", "JoinExpr", props=P)
+    u.type_item("src/query/select.rs", "enum", "WindowSelectType", props=P)
     # upsert / RETURNING: real types (their renderers are under contract)
+    u.type_item("src/query/on_conflict.rs", "enum", "OnConflictUpdate", props=P)
+    u.type_item("src/query/on_conflict.rs", "enum", "OnConflictAction", props=P)
     u.type_item("src/query/on_conflict.rs", "struct", "OnConflict", props=P, rules=[make_r_sub("R-vis", r"pub\(crate\) ", "pub ", min_count=0)])
     u.type_item("src/query/returning.rs", "enum", "ReturningClause", props=P)
     # WITH clause options (SEARCH / CYCLE) are decided on the clause's fields
-    u.type_item("src/query/select.rs", "struct", "SelectExpr", props=P, keep_fields=["expr", "alias"])
+    u.type_item("src/query/select.rs", "struct", "SelectExpr", props=P)
     u.type_item("src/query/with.rs", "enum", "SearchOrder", props=P)
     u.type_item("src/query/with.rs", "struct", "Search", props=P, rules=[make_r_sub("R-vis", r"pub\(crate\) ", "pub ", min_count=0)])
     u.type_item("src/query/with.rs", "struct", "Cycle", props=P, rules=[make_r_sub("R-vis", r"pub\(crate\) ", "pub ", min_count=0)])
@@ -399,6 +410,60 @@ pub open spec fn ord_nulls_mysql(x: OrderExpr) -> Seq<Ev> {
              spec="ensures\n    // the sort key, its direction and the dialect's NULLS-ordering form: each exactly once, in the dialect's order\n    final(sql).tr() == old(sql).tr() + (%s)," % sp,
              proofs={"body-start": "let ghost t0 = sql.tr();", "body-end": "proof { assert(sql.tr() =~= t0 + (%s)); }" % sp})
         u.emit("}\n")
+    # ---- joins, set operations, locks, select items, table references ------------------------------------------------------------
+    u.spec('''
+#[verifier::external_body] pub struct ValueTuple { _o: u8 }
+#[verifier::external_body] pub struct FunctionCall { _o: u8 }
+// grammar: join_type [LATERAL] table_ref [ON predicate]
+pub open spec fn join_events(j: JoinExpr) -> Seq<Ev> {
+    seq![Ev::JoinTy(j.join), lit(" ")] + (if j.lateral { seq![lit("LATERAL ")] } else { Seq::<Ev>::empty() }) + seq![Ev::TRef(*j.table)]
+        + (match j.on { Some(on) => seq![Ev::JoinOnEv(on)], None => Seq::<Ev>::empty() })
+}
+// grammar: { UNION [ALL] | INTERSECT | EXCEPT } ( query )      (MySQL 8.0.31+, PostgreSQL)
+pub open spec fn union_kw(t: UnionType) -> Ev {
+    match t { UnionType::Intersect => lit(" INTERSECT ("), UnionType::Distinct => lit(" UNION ("), UnionType::Except => lit(" EXCEPT ("), UnionType::All => lit(" UNION ALL (") }
+}
+// grammar: FOR { UPDATE | NO KEY UPDATE | SHARE | KEY SHARE } [OF table, ..] [NOWAIT | SKIP LOCKED]
+pub open spec fn lock_events(l: LockClause) -> Seq<Ev> {
+    seq![lit("FOR "), lit(match l.r#type { LockType::Update => "UPDATE", LockType::NoKeyUpdate => "NO KEY UPDATE", LockType::Share => "SHARE", LockType::KeyShare => "KEY SHARE" })]
+        + (if l.tables@.len() > 0 { seq![lit(" OF ")] + l_trefs(l.tables@) } else { Seq::<Ev>::empty() })
+        + (match l.behavior { Some(LockBehavior::Nowait) => seq![lit(" NOWAIT")], Some(LockBehavior::SkipLocked) => seq![lit(" SKIP LOCKED")], None => Seq::<Ev>::empty() })
+}
+// grammar: expr [OVER { window_name | ( window_spec ) }] [AS alias]
+pub open spec fn select_expr_events(x: SelectExpr) -> Seq<Ev> {
+    seq![Ev::Expr(x.expr)]
+        + (match x.window { Some(WindowSelectType::Name(n)) => seq![lit(" OVER "), Ev::Iden(n)], Some(WindowSelectType::Query(w)) => seq![lit(" OVER "), lit("( "), Ev::Window(w), lit(" )")], None => Seq::<Ev>::empty() })
+        + (match x.alias { Some(a) => seq![lit(" AS "), Ev::Iden(a)], None => Seq::<Ev>::empty() })
+}
+''', "render::join-union-lock-spec", props=P)
+    u.emit("pub struct DfltJ;\nimpl DfltJ {\n")
+    u.spec(abstract("prepare_join_type", "x: &JoinType", "Ev::JoinTy(*x)") + abstract("prepare_table_ref", "x: &TableRef", "Ev::TRef(*x)") + abstract("prepare_join_on", "x: &JoinOn", "Ev::JoinOnEv(*x)")
+           + abstract("prepare_select_statement", "x: &SelectStatement", "Ev::Select(*x)") + abstract("prepare_simple_expr", "x: &SimpleExpr", "Ev::Expr(*x)")
+           + abstract("prepare_iden", "x: &DynIden", "Ev::Iden(*x)") + abstract("prepare_window_statement", "x: &WindowStatement", "Ev::Window(*x)"), "render::abstract-sub-renderers(join)", props=P)
+    u.fn(QB, "trait QueryBuilder", "prepare_join_table_ref", props=P, key="QueryBuilder::prepare_join_table_ref", vpath="DfltJ::prepare_join_table_ref", rules=[r_dynw, r_fmt],
+         spec="ensures final(sql).tr() == old(sql).tr() + (if join_expr.lateral { seq![lit(\"LATERAL \")] } else { Seq::<Ev>::empty() }) + seq![Ev::TRef(*join_expr.table)],",
+         proofs={"body-start": "let ghost t0 = sql.tr();", "body-end": "proof { assert(sql.tr() =~= t0 + (if join_expr.lateral { seq![lit(\"LATERAL \")] } else { Seq::<Ev>::empty() }) + seq![Ev::TRef(*join_expr.table)]); }"})
+    u.fn(QB, "trait QueryBuilder", "prepare_join_expr", props=P, key="QueryBuilder::prepare_join_expr", vpath="DfltJ::prepare_join_expr", rules=[r_dynw, r_fmt],
+         spec="ensures\n    // join type, [LATERAL], the table, then its ON predicate\n    final(sql).tr() == old(sql).tr() + join_events(*join_expr),",
+         proofs={"body-start": "let ghost t0 = sql.tr();", "body-end": "proof { assert(sql.tr() =~= t0 + join_events(*join_expr)); }"})
+    u.fn(QB, "trait QueryBuilder", "prepare_union_statement", props=P, key="QueryBuilder::prepare_union_statement", vpath="DfltJ::prepare_union_statement", rules=[r_dynw, r_fmt],
+         spec="ensures\n    // the set operator of this union, then the operand in parentheses\n    final(sql).tr() == old(sql).tr().push(union_kw(union_type)).push(Ev::Select(*select_statement)).push(lit(\")\")),")
+    u.fn(QB, "trait QueryBuilder", "prepare_select_lock", props=P, key="QueryBuilder::prepare_select_lock", vpath="DfltJ::prepare_select_lock", rules=[r_dynw, r_fold, r_fmt],
+         spec="ensures final(sql).tr() == old(sql).tr() + lock_events(*lock),",
+         loops=["invariant it1.index@ <= lock.tables@.len(), first == (it1.index@ == 0), sql.tr() == tl + l_trefs(lock.tables@.subrange(0, it1.index@ as int)),"],
+         proofs={"body-start": "let ghost t0 = sql.tr();",
+                 "before#1:let mut first = true;": "let ghost tl = sql.tr();\nproof { lemma_l_trefs_empty(lock.tables@); assert(tl + Seq::<Ev>::empty() =~= tl); }",
+                 "loop1-end": "proof { lemma_l_trefs_step(lock.tables@, it1.index@ as int); }",
+                 "body-end": "proof { lemma_l_trefs_empty(lock.tables@); assert(sql.tr() =~= t0 + lock_events(*lock)); }"})
+    u.fn(QB, "trait QueryBuilder", "prepare_select_expr", props=P, key="QueryBuilder::prepare_select_expr", vpath="DfltJ::prepare_select_expr",
+         rules=[r_dynw, r_fmt, make_r_sub("R-opaque", r"\b(name|alias)\.prepare\(sql, self\.quote\(\)\)", r"self.prepare_iden(\1, sql)", min_count=2)],
+         spec="ensures\n    // the expression, its OVER clause, its alias\n    final(sql).tr() == old(sql).tr() + select_expr_events(*select_expr),",
+         proofs={"body-start": "let ghost t0 = sql.tr();", "body-end": "proof { assert(sql.tr() =~= t0 + select_expr_events(*select_expr)); }"})
+    u.emit("}\n")
+    u.emit("pub struct SqliteQueryBuilderJ;\nimpl SqliteQueryBuilderJ {\n")
+    u.fn("src/backend/sqlite/query.rs", "impl QueryBuilder for SqliteQueryBuilder", "prepare_select_lock", props=P, key="SqliteQueryBuilder::prepare_select_lock", vpath="SqliteQueryBuilderJ::prepare_select_lock",
+         rules=[r_dynw, make_r_sub("R-slice", r"_sql: &mut W", "sql: &mut W")], spec="ensures\n    // SQLite has no row locks: nothing is written\n    final(sql).tr() == old(sql).tr(),")
+    u.emit("}\n")
     # ---- upsert and RETURNING ---------------------------------------------------------------------------------------------------
     # grammar: PostgreSQL / SQLite  ON CONFLICT [ (target) [WHERE ..] ] action [WHERE ..]  - the target filter BEFORE the action, the
     # action filter AFTER it; MySQL  ON DUPLICATE KEY UPDATE ..  has neither target nor filters.  RETURNING: PostgreSQL / SQLite only.
@@ -440,8 +505,28 @@ pub open spec fn returning_events(r: Option<ReturningClause>) -> Seq<Ev> {
                  "before#2:let mut first = true;": "proof { lemma_l_exprs_empty(exprs@); assert(tr0 + Seq::<Ev>::empty() =~= tr0); }",
                  "loop2-end": "proof { lemma_l_exprs_step(exprs@, it2.index@ as int); }",
                  "body-end": "proof { if returning is Some { match returning->Some_0 { ReturningClause::Columns(c) => { lemma_l_colrefs_empty(c@); } ReturningClause::Exprs(e) => { lemma_l_exprs_empty(e@); } _ => {} } } assert(sql.tr() =~= t0 + returning_events(*returning)); }"})
+    u.spec('''
+    // PostgreSQL / SQLite: DO NOTHING | DO UPDATE SET col = .. [, ..]
+    pub open spec fn action_events_common(a: Option<OnConflictAction>) -> Seq<Ev> {
+        match a { None => Seq::<Ev>::empty(), Some(OnConflictAction::DoNothing(_)) => seq![lit(" DO NOTHING")], Some(OnConflictAction::Update(us)) => seq![Ev::DoUpdateKw] + l_updstrats(us@) }
+    }
+''' + abstract("prepare_on_conflict_do_update_keywords", "", "Ev::DoUpdateKw").replace("&self, , sql", "&self, sql") + abstract("prepare_iden", "x: &DynIden", "Ev::Iden(*x)")
+           + abstract("prepare_on_conflict_excluded_table", "x: &DynIden", "Ev::Excluded(*x)"), "render::upsert-action-spec", props=P)
+    ACT_PROOFS = {"body-start": "let ghost t0 = sql.tr();",
+                  "before#1:let mut first = true;": "let ghost ta = sql.tr();\nproof { lemma_l_updstrats_empty(update_strats@); assert(ta + Seq::<Ev>::empty() =~= ta); }",
+                  "loop1-end": "proof { lemma_l_updstrats_step(update_strats@, it1.index@ as int); assert(sql.tr() =~= ta + l_updstrats(update_strats@.subrange(0, it1.index@ + 1))); }",
+                  "body-end": "let ghost a_ = *on_conflict_action;\nproof { match a_ { Some(OnConflictAction::Update(us)) => { lemma_l_updstrats_empty(us@); } _ => {} } assert(sql.tr() =~= t0 + Self::action_events_common(*on_conflict_action)); }"}
+    r_col = make_r_sub("R-opaque", r"\bcol\.prepare\(sql, self\.quote\(\)\)", "self.prepare_iden(col, sql)", min_count=2)
+    u.fn(QB, "trait QueryBuilder", "prepare_on_conflict_action_common", props=P, key="QueryBuilder::prepare_on_conflict_action_common", vpath="DfltU::prepare_on_conflict_action_common",
+         rules=[r_dynw, r_fold, r_fmt, r_col],
+         spec="ensures\n    // the action keyword(s), then the assignments in call order\n    final(sql).tr() == old(sql).tr() + Self::action_events_common(*on_conflict_action),",
+         loops=["invariant it1.index@ <= update_strats@.len(), first == (it1.index@ == 0), sql.tr() == ta + l_updstrats(update_strats@.subrange(0, it1.index@ as int)),"],
+         proofs=ACT_PROOFS)
     u.emit("}\n")
     u.emit("pub struct MysqlQueryBuilderU;\nimpl MysqlQueryBuilderU {\n")
+    u.spec(abstract("prepare_iden", "x: &DynIden", "Ev::Iden(*x)")
+           + "    #[verifier::external_body]\n    fn prepare_on_conflict_action_common<W: VWrite>(&self, a: &Option<OnConflictAction>, sql: &mut W) ensures final(sql).tr() == old(sql).tr() + DfltU::action_events_common(*a) { unimplemented!() }\n",
+           "render::abstract-sub-renderers(mysql upsert)", props=P)
     MYQ = "src/backend/mysql/query.rs"
     u.fn(MYQ, "impl QueryBuilder for MysqlQueryBuilder", "prepare_on_conflict_target", props=P, key="MysqlQueryBuilder::prepare_on_conflict_target", vpath="MysqlQueryBuilderU::prepare_on_conflict_target",
          rules=[r_dynw, make_r_sub("R-slice", r"_: &\[OnConflictTarget\], _: &mut W", "_t: &Vec<OnConflictTarget>, sql: &mut W")],
@@ -453,6 +538,19 @@ pub open spec fn returning_events(r: Option<ReturningClause>) -> Seq<Ev> {
          rules=[r_dynw, r_fmt], spec="ensures final(sql).tr() == old(sql).tr().push(lit(\" ON DUPLICATE KEY\")),")
     u.fn(MYQ, "impl QueryBuilder for MysqlQueryBuilder", "prepare_on_conflict_do_update_keywords", props=P, key="MysqlQueryBuilder::prepare_on_conflict_do_update_keywords", vpath="MysqlQueryBuilderU::prepare_on_conflict_do_update_keywords",
          rules=[r_dynw, r_fmt], spec="ensures final(sql).tr() == old(sql).tr().push(lit(\" UPDATE \")),")
+    u.fn(MYQ, "impl QueryBuilder for MysqlQueryBuilder", "prepare_on_conflict_action", props=P, key="MysqlQueryBuilder::prepare_on_conflict_action", vpath="MysqlQueryBuilderU::prepare_on_conflict_action",
+         rules=[r_dynw, r_fold, r_fmt, make_r_sub("R-opaque", r"\bpk_col\.prepare\(sql, self\.quote\(\)\)", "self.prepare_iden(pk_col, sql)", min_count=2)],
+         spec=[("""ensures
+    // every action other than a key-less DO NOTHING: the common form; DO NOTHING with key columns is the no-op `UPDATE k = k, ..`
+    !(*on_conflict_action matches Some(OnConflictAction::DoNothing(pks)) && pks@.len() == 0) ==> final(sql).tr() == old(sql).tr() + (match *on_conflict_action {
+        Some(OnConflictAction::DoNothing(pks)) => seq![lit(" UPDATE ")] + l_pkassign(pks@),
+        a => DfltU::action_events_common(a) }),""", P),
+               ("    // grammar: ON DUPLICATE KEY is always followed by UPDATE assignment_list (there is no `ON DUPLICATE KEY IGNORE`)\n    *on_conflict_action matches Some(OnConflictAction::DoNothing(pks)) ==> (pks@.len() == 0 ==> final(sql).tr().len() > old(sql).tr().len() && final(sql).tr()[old(sql).tr().len() as int] == lit(\" UPDATE \")),", P)],
+         loops=["invariant it1.index@ <= pk_cols@.len(), first == (it1.index@ == 0), sql.tr() == tp + l_pkassign(pk_cols@.subrange(0, it1.index@ as int)),"],
+         proofs={"body-start": "let ghost t0 = sql.tr();",
+                 "before#1:let mut first = true;": "let ghost tp = sql.tr();\nproof { lemma_l_pkassign_empty(pk_cols@); assert(tp + Seq::<Ev>::empty() =~= tp); }",
+                 "loop1-end": "proof { lemma_l_pkassign_step(pk_cols@, it1.index@ as int); assert(sql.tr() =~= tp + l_pkassign(pk_cols@.subrange(0, it1.index@ + 1))); }",
+                 "body-end": "let ghost a_ = *on_conflict_action;\nproof { match a_ { Some(OnConflictAction::DoNothing(pks)) => { lemma_l_pkassign_empty(pks@); if pks@.len() > 0 { assert(sql.tr() =~= t0 + (seq![lit(\" UPDATE \")] + l_pkassign(pks@))); } } _ => {} } }"})
     u.fn(MYQ, "impl QueryBuilder for MysqlQueryBuilder", "prepare_returning", props=P, key="MysqlQueryBuilder::prepare_returning", vpath="MysqlQueryBuilderU::prepare_returning",
          rules=[r_dynw, make_r_sub("R-slice", r"_sql: &mut W", "sql: &mut W")],
          spec="ensures\n    // MySQL has no RETURNING\n    final(sql).tr() == old(sql).tr(),")
